@@ -962,3 +962,211 @@ def gen_valid(rng, n):
         src = Valid(rng).program()
         out.append({'gen': 'valid', 'family': 'valid', 'data': src.encode(), 'opts': [], 'expect': 'ok'})
     return out
+
+
+# ---------------------------------------------------------------------------------------- (g) boundary constants at emission sites
+
+_POW = [7, 8, 15, 16, 31, 32, 63]
+
+
+def boundary_values():
+    """0, +-1 and +-1 around 2^7, 2^8, 2^15, 2^16, 2^31, 2^32, 2^63 (both signs)"""
+    vs = {0, 1, -1, 2, -2}
+    for k in _POW:
+        for d in (-2, -1, 0, 1):
+            vs.add((1 << k) + d)
+            vs.add(-(1 << k) - d)
+    return sorted(vs)
+
+
+CTL_TYPES = [  # (spelling, lo, hi) of the promoted controlling type's value range the type itself can hold
+    ('char', -128, 127), ('signed char', -128, 127), ('unsigned char', 0, 255), ('short', -32768, 32767),
+    ('unsigned short', 0, 65535), ('int', -(1 << 31), (1 << 31) - 1), ('unsigned', 0, (1 << 32) - 1),
+    ('long', -(1 << 63), (1 << 63) - 1), ('unsigned long', 0, (1 << 64) - 1), ('long long', -(1 << 63), (1 << 63) - 1),
+    ('unsigned long long', 0, (1 << 64) - 1), ('_Bool', 0, 1),
+]
+
+
+def c_lit(v, unsigned=False):
+    """a C constant expression with value v whose type is long / unsigned long (or int where it fits), accepted by gcc without
+    warnings about its spelling"""
+    if unsigned:
+        if v < (1 << 32):
+            return '%dU' % v if v < (1 << 31) else '0x%xU' % v
+        return '0x%xUL' % v
+    if v == -(1 << 63):
+        return '(-9223372036854775807L-1)'
+    if v == -(1 << 31):
+        return '(-2147483647-1)'
+    if v < 0:
+        return '(-%s)' % c_lit(-v)
+    if v < (1 << 31):
+        return str(v) if v % 3 else '0x%x' % v
+    return '%dL' % v if v % 2 else '0x%xL' % v
+
+
+def promoted_range(lo, hi):
+    """range of the type the controlling expression is promoted to (C11 6.8.4.2p5 converts the case constants to it)"""
+    if lo >= -(1 << 31) and hi <= (1 << 31) - 1:
+        return -(1 << 31), (1 << 31) - 1, False
+    if lo >= 0 and hi <= (1 << 32) - 1:
+        return 0, (1 << 32) - 1, True
+    if lo < 0:
+        return -(1 << 63), (1 << 63) - 1, False
+    return 0, (1 << 64) - 1, True
+
+
+ALLOW_U64_CROSSING = False
+
+
+def gen_switch_fn(rng, name):
+    ty, lo, hi = CTL_TYPES[rng.randrange(len(CTL_TYPES))]
+    plo, phi, uns = promoted_range(lo, hi)
+    vals = [v for v in boundary_values() if plo <= v <= phi]
+    rng.shuffle(vals)
+    want = rng.randrange(3, 10)
+    taken = []          # disjoint closed intervals
+    arms = []
+    spans = [0, 1, 2, 126, 127, 128, 255, 256, 32767, 65535, 65536, (1 << 31) - 2, (1 << 31) - 1, 1 << 31, (1 << 32) - 1, 1 << 32,
+             (1 << 63) - 1, (1 << 64) - 1]
+    for v in vals:
+        if len(arms) >= want:
+            break
+        if rng.random() < 0.45:
+            span = spans[rng.randrange(len(spans))]
+            a, b = v, min(phi, v + span)
+        else:
+            a = b = v
+        if any(not (b < x or y < a) for x, y in taken):
+            continue
+        if uns and a < (1 << 63) <= b and not ALLOW_U64_CROSSING:
+            continue        # parse.c compares the bounds of a case range as `long`: an unsigned range crossing 2^63 is rejected (reported)
+        taken.append((a, b))
+        k = len(arms) + 1
+        if a == b:
+            arms.append(f'  case {c_lit(a, uns)}: r = {k}; break;')
+        else:
+            arms.append(f'  case {c_lit(a, uns)} ... {c_lit(b, uns)}: r = {k}; break;')
+    body = '\n'.join(arms)
+    dflt = '  default: r = -1; break;\n' if rng.random() < 0.7 else ''
+    return f'int {name}({ty} x) {{\n  int r = 0;\n  switch (x) {{\n{body}\n{dflt}  }}\n  return r;\n}}\n'
+
+
+def gen_imm_fn(rng, name):
+    """immediates of boundary magnitude in arithmetic / compare / assignment / index / shift positions"""
+    bv = boundary_values()
+    pick = lambda: bv[rng.randrange(len(bv))]
+    lines = []
+    ity = rng.choice(['int', 'long', 'unsigned', 'unsigned long', 'short', 'char', 'unsigned char'])
+    lines.append(f'long {name}({ity} x, long y, unsigned long u, char *p, long *q, int *ip) {{')
+    lines.append('  long r = 0;')
+    for _ in range(rng.randrange(6, 14)):
+        v = pick()
+        k = rng.randrange(14)
+        L = c_lit(v) if -(1 << 63) <= v <= (1 << 63) - 1 else c_lit(v % (1 << 64), True)
+        U = c_lit(v % (1 << 64), True)
+        if k == 0:
+            op = rng.choice(['+', '-', '*', '&', '|', '^'])
+            lines.append(f'  r += y {op} {L};')
+        elif k == 1:
+            op = rng.choice(['<', '<=', '>', '>=', '==', '!='])
+            lines.append(f'  r += (y {op} {L}) + (u {op} {U}) + (x {op} {L});')
+        elif k == 2:
+            lines.append(f'  y = {L}; r ^= y; u = {U}; r ^= (long)u;')
+        elif k == 3:
+            d = v if v not in (0,) else 3
+            Ld = c_lit(d) if -(1 << 63) <= d <= (1 << 63) - 1 else c_lit(d % (1 << 64), True)
+            if d == -1:
+                lines.append(f'  r += u / {c_lit(d % (1 << 64), True)} + u % {c_lit(d % (1 << 64), True)};')
+            else:
+                lines.append(f'  r += y / {Ld} + y % {Ld};')
+        elif k == 4:
+            i = v if -(1 << 63) <= v <= (1 << 63) - 1 else 1
+            lines.append(f'  r += p[{c_lit(i)}] + q[{c_lit(i // 8)}] + ip[{c_lit(i // 4)}];')
+        elif k == 5:
+            i = v if -(1 << 63) <= v <= (1 << 63) - 1 else 1
+            lines.append(f'  r += *(p + {c_lit(i)}) + (long)(q + {c_lit(i // 8)}) + (long)&ip[{c_lit(i // 4)}];')
+        elif k == 6:
+            c = rng.choice([0, 1, 7, 8, 15, 16, 31, 32, 33, 62, 63])
+            lines.append(f'  r += (y << {c}) + (y >> {c}) + (long)(u << {c}) + (long)(u >> {c});')
+            if c < 32:
+                lines.append(f'  r += (x << {c % 8}) + (x >> {c % 8});')
+        elif k == 7:
+            lines.append(f'  y += {L}; y -= {L}; u *= {U}; u &= {U}; y |= {L}; y ^= {L};')
+        elif k == 8:
+            lines.append(f'  r += y ? {L} : {c_lit(pick() % (1 << 63))};')
+        elif k == 9:
+            lines.append(f'  r += ({rng.choice(["char", "short", "int", "unsigned char", "unsigned short", "unsigned", "long", "_Bool"])}){L};')
+        elif k == 10:
+            lines.append(f'  {{ long t[3] = {{{L}, {c_lit(pick() % (1 << 63))}, y}}; r += t[x & 1]; }}')
+        elif k == 11:
+            lines.append(f'  x = ({ity}){L}; r += x; x += ({ity}){c_lit(pick() % (1 << 31))}; r += x;')
+        elif k == 12:
+            lines.append(f'  r ^= ~{L}; r += !{L}; r ^= (long)(-(unsigned long){L});')
+        else:
+            lines.append(f'  if (y == {L} || u > {U}) r++; while (y < {L}) {{ y += {c_lit(max(1, abs(v) // 2 + 1) % (1 << 62) + 1)}; r++; if (r > 3) break; }}')
+    lines.append('  return r;')
+    lines.append('}')
+    return '\n'.join(lines) + '\n'
+
+
+def gen_struct_off(rng, name):
+    """members at boundary offsets (within chibicc's struct size limit), bit-fields of boundary widths, used through a pointer"""
+    offs = [0x7f, 0x80, 0xff, 0x100, 0x7fff, 0x8000, 0xffff, 0x10000, 0x7fffff, 0x800000, 0x7ffffff]
+    o1, o2 = sorted(rng.sample(offs, 2))
+    widths = rng.sample([1, 2, 7, 8, 15, 16, 31, 32, 33, 63, 64], 4)
+    bfs = ' '.join(f'{"unsigned long" if w > 32 or rng.random() < 0.5 else "long"} b{i} : {w};' for i, w in enumerate(widths))
+    s = f'typedef struct {{ char pad0[{o1}]; int m1; char pad1[{o2 - o1}]; long m2; {bfs} char tail; }} {name}_t;\n'
+    s += f'long {name}({name}_t *p, {name}_t *q) {{\n'
+    s += '  p->m1 = 1; p->m2 = q->m2 + q->m1; p->tail = q->tail;\n'
+    for i, w in enumerate(widths):
+        s += f'  p->b{i} = q->b{i} + 1; p->b{i}++; p->b{i} |= 1;\n'
+    s += f'  return p->m1 + p->m2 + p->b0 + (long)&p->m2 + (long)sizeof(*p) + (long)&(({name}_t *)0)->tail + (long)(p + 1) + (long)&p[{rng.choice([1, 2, 15, 16, 255])}];\n}}\n'
+    if rng.random() < 0.5:
+        s += f'static {name}_t {name}_g = {{ .m1 = 1, .m2 = 2, .b0 = 1, .tail = 3 }};\nlong {name}_h(void) {{ return {name}({name}_g.m1 ? &{name}_g : 0, &{name}_g); }}\n'
+    return s
+
+
+def gen_frame_fn(rng, name):
+    """large local frames and alignments"""
+    sz = rng.choice([1, 0x7f, 0x80, 0xff, 0x100, 0x7fff, 0x8000, 0xffff, 0x10000, 0x7ffff, 0x100000, 0x7fffff, 0x1000000, 0x7fffffe])
+    al = rng.choice([1, 2, 4, 8, 16, 32, 64, 128, 4096])
+    s = f'long {name}(long n) {{\n  char a[{sz}]; _Alignas({al}) char b[{rng.choice([1, 3, 16, 33])}]; long v[{rng.choice([1, 15, 16, 17, 4095, 4096])}];\n'
+    s += f'  _Alignas({rng.choice([16, 32, 64])}) struct {{ char c; long d; }} s = {{1, 2}};\n'
+    s += f'  a[0] = 1; a[{sz - 1}] = 2; b[0] = 3; v[0] = n; s.d += n;\n'
+    s += '  return a[0] + b[0] + v[0] + s.d + (long)&a + (long)&b;\n}\n'
+    return s
+
+
+def gen_global_data(rng, name):
+    bv = [v for v in boundary_values() if -(1 << 63) <= v <= (1 << 63) - 1]
+    vals = [bv[rng.randrange(len(bv))] for _ in range(rng.randrange(3, 9))]
+    s = f'long {name}_l[] = {{{", ".join(c_lit(v) for v in vals)}}};\n'
+    s += f'unsigned long {name}_u[] = {{{", ".join(c_lit(v % (1 << 64), True) for v in vals)}}};\n'
+    s += f'int {name}_i[] = {{{", ".join(c_lit(v % (1 << 31)) for v in vals)}}};\n'
+    s += f'char {name}_c[{rng.choice([1, 127, 128, 255, 256, 65535, 65536, 0x1000000])}] = {{1}};\n'
+    s += f'long *{name}_p = &{name}_l[{len(vals) - 1}]; char *{name}_q = {name}_c + {rng.choice([0, 1, 127, 128, 255])};\n'
+    s += f'_Alignas({rng.choice([16, 64, 4096, 65536])}) long {name}_al = {c_lit(vals[0])};\n'
+    return s
+
+
+def gen_boundary(rng, n):
+    """valid programs whose constants sit on the boundaries of the instruction encodings: expect exit 0 and `as` accepts"""
+    out = []
+    for i in range(n):
+        parts = []
+        fam = i % 5
+        if fam == 0:
+            parts = [gen_switch_fn(rng, f'sw{j}') for j in range(rng.randrange(1, 4))]
+        elif fam == 1:
+            parts = [gen_imm_fn(rng, f'im{j}') for j in range(rng.randrange(1, 3))]
+        elif fam == 2:
+            parts = [gen_struct_off(rng, f'so{j}') for j in range(rng.randrange(1, 3))]
+        elif fam == 3:
+            parts = [gen_frame_fn(rng, f'fr{j}') for j in range(rng.randrange(1, 3))] + [gen_global_data(rng, 'gd')]
+        else:
+            parts = [gen_switch_fn(rng, 'sw'), gen_imm_fn(rng, 'im'), gen_struct_off(rng, 'so'), gen_frame_fn(rng, 'fr'),
+                     gen_global_data(rng, 'gd')]
+        src = '\n'.join(parts)
+        out.append({'gen': 'valid-boundary', 'family': 'valid', 'data': src.encode(), 'opts': [], 'expect': 'ok'})
+    return out
